@@ -147,7 +147,12 @@ pub fn run(ctx: &Ctx) -> ! {
         Tier::Quick => 2,
         Tier::Thorough => 3,
     };
-    let cfg = CorpusCfg::new(k);
+    let mut cfg = CorpusCfg::new(k);
+    cfg.extra.push(("two-edge structures + one deviation of any kind", {
+        let mut x = corpus::structures_any_cfg(&uni);
+        x.only_datasets = Some(vec!["diamond", "fan3", "counts0123"]);
+        x
+    }));
     let counters = Counters::default();
     let samples = Mutex::new(Samples::new(4));
     let nontrivial: Mutex<std::collections::HashSet<u64>> = Mutex::new(Default::default());
